@@ -2,7 +2,7 @@
    frun_run_rows   on strings, a flat sheet read by FlatSem.frun is read the same way by RowSem.run_rows;
    frun_rename     renaming the row ids injectively (on the ids of the sheet) does not change the nodes. *)
 From Coq Require Import List NArith Bool Arith Lia.
-From RPFT Require Import Base.Sexp Base.PyStr Base.PyStrFacts Base.SexpEq Flow.Lts Flow.Flow Flow.RowSem Exp.FlatSem.
+From RPFT Require Import Base.Sexp Base.PyStr Base.PyStrFacts Base.SexpEq Flow.Lts Flow.Flow Flow.RowSem Exp.FlatSem Exp.RefFlowFacts.
 Import ListNotations.
 
 (* ---------------------------------------------------------------- RowSem on flat sheets *)
@@ -15,6 +15,14 @@ Record FSim (G : list (nat * eclass)) (fs : @fstate str) (s : st) : Prop := {
   fsim_groups : s_groups s = map (fun kc => GRow (fst kc) (snd kc)) G;
   fsim_rowmap : Forall2 (fun a b => fst a = fst b /\ nth_error G (snd a) = Some (snd b)) (s_rowmap s) (fs_rowmap fs);
   fsim_names : s_names s = fs_names fs }.
+
+(* the groups are the row groups of the nodes 0, 1, 2, ... in this order, all in the one (outermost) block: the reference
+   flow lists the nodes in the order in which they were made *)
+Definition FIdx (G : list (nat * eclass)) (fs : @fstate str) (s : st) : Prop :=
+  map fst G = seq 0 (length (fs_nodes fs)) /\ s_stack s = [seq 0 (length G)].
+
+Lemma update_length {X} (l : list X) k x : length (update l k x) = length l.
+Proof. revert k. induction l as [|a l IH]; intros [|k]; cbn; auto. Qed.
 
 Lemma add_exit_row f s g k cls c tgt :
   nth_error (s_groups s) g = Some (GRow k cls) ->
@@ -45,29 +53,31 @@ Proof. intros H. rewrite nth_error_map, H. reflexivity. Qed.
 
 Lemma fapply_sim G fs s e tgt fs' :
   FSim G fs s -> fapply str_eqb no_args fs e tgt = Some fs' ->
-  exists s', add_row_edge no_args s (to_redge e) tgt = Some s' /\ FSim G fs' s' /\ s_stack s' = s_stack s.
+  exists s', add_row_edge no_args s (to_redge e) tgt = Some s' /\ FSim G fs' s' /\ s_stack s' = s_stack s
+             /\ length (fs_nodes fs') = length (fs_nodes fs).
 Proof.
   intros [H1 H2 H3 H4] H. unfold fapply in H. unfold add_row_edge, source_group. cbn [to_redge e_from e_cond].
   destruct (fe_from e) as [|i]; cbn [to_efrom].
-  - injection H as <-. exists s. split; [reflexivity|]. split; [constructor; assumption|reflexivity].
+  - injection H as <-. exists s. split; [reflexivity|]. split; [constructor; assumption|split; reflexivity].
   - pose proof (rowmap_look G _ _ i H3) as Hl. destruct (flook str_eqb (fs_rowmap fs) i) as [[k cls]|]; [|discriminate].
     destruct Hl as (g & Hg & Hx). rewrite Hg. unfold fuel_of.
     rewrite (add_exit_row _ s g k cls) by (rewrite H2; apply (nth_group G g (k, cls) Hx)).
     rewrite H1. destruct (nth_error (fs_nodes fs) k) as [n|]; [|discriminate].
     destruct (apply_row_edge no_args n cls (fe_cond e) tgt) as [n'|]; [|discriminate].
-    injection H as <-. eexists. split; [reflexivity|]. split; [|reflexivity].
+    injection H as <-. eexists. split; [reflexivity|]. split; [|split; [reflexivity|apply update_length]].
     constructor; cbn [set_node s_nodes s_groups s_rowmap s_names fs_nodes fs_rowmap fs_names]; try assumption. rewrite H1. reflexivity.
 Qed.
 
 Lemma fapply_all_sim G es tgt : forall fs s fs',
   FSim G fs s -> fapply_all str_eqb no_args fs es tgt = Some fs' ->
-  exists s', fold_edges no_args s (map to_redge es) (fun _ => tgt) = Some s' /\ FSim G fs' s' /\ s_stack s' = s_stack s.
+  exists s', fold_edges no_args s (map to_redge es) (fun _ => tgt) = Some s' /\ FSim G fs' s' /\ s_stack s' = s_stack s
+             /\ length (fs_nodes fs') = length (fs_nodes fs).
 Proof.
   unfold fapply_all, fold_edges. induction es as [|e es IH]; intros fs s fs' Hs H; cbn [fold_left map] in *.
-  - injection H as <-. exists s. split; [reflexivity|]. split; [exact Hs|reflexivity].
+  - injection H as <-. exists s. split; [reflexivity|]. split; [exact Hs|split; reflexivity].
   - destruct (fapply str_eqb no_args fs e tgt) as [fs1|] eqn:E1.
-    + destruct (fapply_sim G fs s e tgt fs1 Hs E1) as (s1 & A1 & Hs1 & St1). rewrite A1.
-      destruct (IH fs1 s1 fs' Hs1 H) as (s' & A & Hs' & St). exists s'. split; [exact A|]. split; [exact Hs'|congruence].
+    + destruct (fapply_sim G fs s e tgt fs1 Hs E1) as (s1 & A1 & Hs1 & St1 & Ln1). rewrite A1.
+      destruct (IH fs1 s1 fs' Hs1 H) as (s' & A & Hs' & St & Ln). exists s'. split; [exact A|]. split; [exact Hs'|split; congruence].
     + exfalso. clear -H. induction es as [|x r IHr]; cbn in H; [discriminate|]. apply IHr, H.
 Qed.
 
@@ -88,34 +98,45 @@ Definition id_ok (r : @frow str) : Prop := fr_id r <> [].
 (* RowSem's reading of a node row that is not merged *)
 Definition rnew (s : st) (r : row) (cls : eclass) (acts : list sexp) (dec0 : option rdec) : option st :=
   let (s1, k) := add_node s (mkRNode acts dec0 DNone) in
-  let es := match r_edges r with [] => [] | e0 :: rest => e0 :: filter (fun e => negb (edge_trivial e)) rest end in
+  let es := drop_padding (r_edges r) in
   match fold_edges no_args s1 es (fun _ => DNode k) with
   | None => None
   | Some s2 => let (s3, g) := add_group s2 (GRow k cls) (r_id r) in Some (push_names s3 (r_node_name r) k)
   end.
 
-Lemma no_trivial (es : list (@fedge str)) :
-  match map to_redge es with [] => [] | e0 :: rest => e0 :: filter (fun e => negb (edge_trivial e)) rest end = map to_redge es.
+Lemma no_trivial (es : list (@fedge str)) : drop_padding (map to_redge es) = map to_redge es.
 Proof.
-  destruct es as [|e0 rest]; [reflexivity|]. cbn [map]. f_equal.
+  unfold drop_padding. destruct es as [|e0 rest]; [reflexivity|]. cbn [map]. f_equal.
   induction rest as [|x rest IH]; [reflexivity|]. cbn [map filter]. unfold edge_trivial at 1. cbn [to_redge e_from].
   destruct (fe_from x); cbn [to_efrom negb]; rewrite IH; reflexivity.
 Qed.
 
+(* every edge of a flat row names its origin: nothing of it is padding *)
+Lemma read_flat (r : @frow str) : read_row (to_rsrow r) = to_rsrow r.
+Proof. unfold read_row. cbn [to_rsrow r_type r_id r_node_name r_edges]. rewrite no_trivial. reflexivity. Qed.
+
 Lemma fnew_sim G fs s r cls acts dec0 fs' :
-  id_ok r -> FSim G fs s -> fstep_new str_eqb no_args fs r cls acts dec0 = Some fs' ->
-  exists G' s', rnew s (to_rsrow r) cls acts dec0 = Some s' /\ FSim G' fs' s'.
+  id_ok r -> FSim G fs s -> FIdx G fs s -> fstep_new str_eqb no_args fs r cls acts dec0 = Some fs' ->
+  exists G' s', rnew s (to_rsrow r) cls acts dec0 = Some s' /\ FSim G' fs' s' /\ FIdx G' fs' s'.
 Proof.
-  intros Hid Hs H. unfold fstep_new in H. unfold rnew, add_node. cbn [to_rsrow r_edges r_id r_node_name].
+  intros Hid Hs [Ix1 Ix2] H. unfold fstep_new in H. unfold rnew, add_node. cbn [to_rsrow r_edges r_id r_node_name].
   rewrite (fsim_nodes _ _ _ Hs), no_trivial.
   destruct (fapply_all str_eqb no_args _ (fr_edges r) _) as [fs2|] eqn:E2; [|discriminate].
   assert (Hs1 : FSim G (mkFS (fs_nodes fs ++ [mkRNode acts dec0 DNone]) (fs_rowmap fs) (fs_names fs))
                      (mkSt (fs_nodes fs ++ [mkRNode acts dec0 DNone]) (s_groups s) (s_rowmap s) (s_names s) (s_stack s))).
   { destruct Hs as [A1 A2 A3 A4]. constructor; cbn; try assumption. reflexivity. }
-  destruct (fapply_all_sim G _ _ _ _ fs2 Hs1 E2) as (s2 & A & Hs2 & _). rewrite A.
+  destruct (fapply_all_sim G _ _ _ _ fs2 Hs1 E2) as (s2 & A & Hs2 & St2 & Ln2). rewrite A.
+  cbn [s_stack fs_nodes] in St2, Ln2. rewrite app_length in Ln2. cbn [length] in Ln2.
   injection H as <-. unfold add_group. destruct Hs2 as [B1 B2 B3 B4].
   exists (G ++ [(length (fs_nodes fs), cls)]). eexists. split; [reflexivity|].
   assert (Hlen : length (s_groups s2) = length G) by (rewrite B2, map_length; reflexivity).
+  assert (HIdx : map fst (G ++ [(length (fs_nodes fs), cls)]) = seq 0 (length (fs_nodes fs2))
+                 /\ match s_stack s2 with [] => [[length (s_groups s2)]] | top :: r0 => (top ++ [length (s_groups s2)]) :: r0 end
+                    = [seq 0 (length (G ++ [(length (fs_nodes fs), cls)]))]).
+  { split.
+    - rewrite map_app, Ix1, Ln2, Nat.add_1_r, seq_S. reflexivity.
+    - rewrite St2, Ix2, Hlen, app_length, Nat.add_1_r, seq_S. reflexivity. }
+  split; [|unfold FIdx; destruct (fr_name r); cbn [push_names s_stack fs_nodes]; exact HIdx].
   unfold id_ok in Hid. destruct (fr_id r) as [|c0 rid] eqn:Eid; [exfalso; apply Hid; reflexivity|].
   assert (Hrm : Forall2 (fun a b => fst a = fst b /\ nth_error (G ++ [(length (fs_nodes fs), cls)]) (snd a) = Some (snd b))
                         ((c0 :: rid, length (s_groups s2)) :: s_rowmap s2) ((c0 :: rid, (length (fs_nodes fs), cls)) :: fs_rowmap fs2)).
@@ -144,7 +165,7 @@ Lemma fmerge_sim G fs s r k acts fs' :
            | _ => None
            end
     | _ => None
-    end = Some s' /\ FSim G fs' s'.
+    end = Some s' /\ FSim G fs' s' /\ s_stack s' = s_stack s /\ length (fs_nodes fs') = length (fs_nodes fs).
 Proof.
   intros Hid Hs H. unfold fstep_merge in H. cbn [to_rsrow r_edges r_id].
   destruct (fr_edges r) as [|e [|e1 rest]]; try discriminate. cbn [map].
@@ -158,6 +179,7 @@ Proof.
   destruct (Nat.eqb k k'); [|discriminate]. injection H as <-.
   eexists. split; [reflexivity|].
   unfold alias_row. unfold id_ok in Hid. destruct (fr_id r) as [|c0 rid] eqn:Eid; [exfalso; apply Hid; reflexivity|].
+  split; [|split; [reflexivity|apply update_length]].
   constructor; cbn [set_node s_nodes s_groups s_rowmap s_names fs_nodes fs_rowmap fs_names]; try assumption.
   - rewrite A1. reflexivity.
   - constructor; [cbn [fst snd]; split; [reflexivity|exact Hx]|exact A3].
@@ -182,73 +204,109 @@ Lemma fgoto_sim G es : forall tg fs s fs',
                                                      | None => None
                                                      end
                                          end
-                            end) (combine (map to_redge es) tg) (Some s) = Some s' /\ FSim G fs' s'.
+                            end) (combine (map to_redge es) tg) (Some s) = Some s' /\ FSim G fs' s'
+                                 /\ s_stack s' = s_stack s /\ length (fs_nodes fs') = length (fs_nodes fs).
 Proof.
   induction es as [|e es IH]; intros tg fs s fs' Hs H; cbn [map combine fold_left] in *.
-  - injection H as <-. exists s. split; [reflexivity|exact Hs].
-  - destruct tg as [|t tg]; cbn [combine fold_left] in *; [injection H as <-; exists s; split; [reflexivity|exact Hs]|].
+  - injection H as <-. exists s. split; [reflexivity|split; [exact Hs|split; reflexivity]].
+  - destruct tg as [|t tg]; cbn [combine fold_left] in *; [injection H as <-; exists s; split; [reflexivity|split; [exact Hs|split; reflexivity]]|].
     cbn [fst snd] in *.
     pose proof (rowmap_look G _ _ t (fsim_rowmap _ _ _ Hs)) as Hl.
     destruct (flook str_eqb (fs_rowmap fs) t) as [[k cls]|]; [|rewrite fold_none in H; discriminate].
     destruct Hl as (g & Hg & Hx). rewrite Hg.
     rewrite (entry_node_row s g k cls) by (rewrite (fsim_groups _ _ _ Hs); apply (nth_group G g (k, cls) Hx)).
     destruct (fapply str_eqb no_args fs e (DNode k)) as [fs1|] eqn:E1; [|rewrite fold_none in H; discriminate].
-    destruct (fapply_sim G fs s e (DNode k) fs1 Hs E1) as (s1 & A1 & Hs1 & _). rewrite A1.
-    apply (IH tg fs1 s1 fs' Hs1 H).
+    destruct (fapply_sim G fs s e (DNode k) fs1 Hs E1) as (s1 & A1 & Hs1 & St1 & Ln1). rewrite A1.
+    destruct (IH tg fs1 s1 fs' Hs1 H) as (s' & A & Hs' & St & Ln). exists s'. split; [exact A|split; [exact Hs'|split; congruence]].
 Qed.
 
+Lemma FIdx_keep G fs s fs' s' :
+  FIdx G fs s -> s_stack s' = s_stack s -> length (fs_nodes fs') = length (fs_nodes fs) -> FIdx G fs' s'.
+Proof. intros [A B] C D. split; congruence. Qed.
+
 Lemma fstep_sim G fs s r fs' :
-  id_ok r -> FSim G fs s -> fstep str_eqb no_args fs r = Some fs' ->
-  exists G' s', step_row no_args s (to_rsrow r) = Some s' /\ FSim G' fs' s'.
+  id_ok r -> FSim G fs s -> FIdx G fs s -> fstep str_eqb no_args fs r = Some fs' ->
+  exists G' s', step_row no_args s (to_rsrow r) = Some s' /\ FSim G' fs' s' /\ FIdx G' fs' s'.
 Proof.
-  intros Hid Hs H. unfold fstep in H.
+  intros Hid Hs Hx H. unfold fstep in H.
   destruct (fr_kind r) as [cls acts dec0|tgts|] eqn:Ek.
   - (* node row *)
     assert (Hnew : fstep_new str_eqb no_args fs r cls acts dec0 = Some fs' ->
                    step_row no_args s (to_rsrow r) = rnew s (to_rsrow r) cls acts dec0 ->
-                   exists G' s', step_row no_args s (to_rsrow r) = Some s' /\ FSim G' fs' s').
-    { intros H1 H2. rewrite H2. exact (fnew_sim G fs s r cls acts dec0 fs' Hid Hs H1). }
+                   exists G' s', step_row no_args s (to_rsrow r) = Some s' /\ FSim G' fs' s' /\ FIdx G' fs' s').
+    { intros H1 H2. rewrite H2. exact (fnew_sim G fs s r cls acts dec0 fs' Hid Hs Hx H1). }
     unfold merges in H. pose proof (fsim_names _ _ _ Hs) as Hn.
     destruct (fr_name r) as [|c1 nm] eqn:En.
     { apply Hnew; [exact H|]. unfold step_row, rnew. cbn [to_rsrow r_type r_node_name]. rewrite Ek, En. cbn [to_rtype]. reflexivity. }
-    destruct acts as [|a0 acts].
-    { apply Hnew; [exact H|]. unfold step_row, rnew. cbn [to_rsrow r_type r_node_name]. rewrite Ek, En. cbn [to_rtype].
+    destruct (merge_actions cls acts) as [|a0 macts] eqn:Em.
+    { apply Hnew; [exact H|]. unfold step_row, rnew. cbn [to_rsrow r_type r_node_name]. rewrite Ek, En. cbn [to_rtype]. rewrite Em.
       destruct (alookup (s_names s) (c1 :: nm)); reflexivity. }
     destruct (alookup (fs_names fs) (c1 :: nm)) as [k|] eqn:Ea.
-    + destruct (fmerge_sim G fs s r k (a0 :: acts) fs' Hid Hs H) as (s' & A & Hs').
-      exists G, s'. split; [|exact Hs']. rewrite <- A.
-      unfold step_row. cbn [to_rsrow r_type r_node_name r_edges r_id]. rewrite Ek, En, Hn, Ea. cbn [to_rtype]. reflexivity.
+    + destruct (fmerge_sim G fs s r k acts fs' Hid Hs H) as (s' & A & Hs' & St & Ln).
+      exists G, s'. split; [|split; [exact Hs'|exact (FIdx_keep _ _ _ _ _ Hx St Ln)]]. rewrite <- A.
+      unfold step_row. cbn [to_rsrow r_type r_node_name r_edges r_id]. rewrite Ek, En, Hn, Ea. cbn [to_rtype]. rewrite Em. reflexivity.
     + apply Hnew; [exact H|]. unfold step_row, rnew. cbn [to_rsrow r_type r_node_name]. rewrite Ek, En, Hn, Ea. cbn [to_rtype]. reflexivity.
   - (* go_to *)
     unfold fstep_goto in H. unfold step_row. cbn [to_rsrow r_type r_edges]. rewrite Ek. cbn [to_rtype]. rewrite map_length.
     destruct (negb (Nat.eqb (length (match tgts with [t] => repeat t (length (fr_edges r)) | _ => tgts end)) (length (fr_edges r)))); [discriminate|].
-    destruct (fgoto_sim G _ _ fs s fs' Hs H) as (s' & A & Hs'). exists G, s'. split; [exact A|exact Hs'].
+    destruct (fgoto_sim G _ _ fs s fs' Hs H) as (s' & A & Hs' & St & Ln). exists G, s'.
+    split; [exact A|split; [exact Hs'|exact (FIdx_keep _ _ _ _ _ Hx St Ln)]].
   - (* loose_exit *)
     unfold step_row. cbn [to_rsrow r_type r_edges]. rewrite Ek. cbn [to_rtype].
-    destruct (fapply_all_sim G _ _ _ _ fs' Hs H) as (s' & A & Hs' & _). exists G, s'. split; [exact A|exact Hs'].
+    destruct (fapply_all_sim G _ _ _ _ fs' Hs H) as (s' & A & Hs' & St & Ln). exists G, s'.
+    split; [exact A|split; [exact Hs'|exact (FIdx_keep _ _ _ _ _ Hx St Ln)]].
 Qed.
 
 Lemma frun_sim rows : forall G fs s fs',
-  Forall id_ok rows -> FSim G fs s -> frun str_eqb no_args rows fs = Some fs' ->
-  exists G' s', run_rows no_args (map to_rsrow rows) s [] = Some s' /\ FSim G' fs' s'.
+  Forall id_ok rows -> FSim G fs s -> FIdx G fs s -> frun str_eqb no_args rows fs = Some fs' ->
+  exists G' s', run_rows no_args (map to_rsrow rows) s [] = Some s' /\ FSim G' fs' s' /\ FIdx G' fs' s'.
 Proof.
-  unfold frun. induction rows as [|r rows IH]; intros G fs s fs' Hid Hs H; cbn [fold_left map run_rows] in *.
-  - injection H as <-. exists G, s. split; [reflexivity|exact Hs].
+  unfold frun. induction rows as [|r rows IH]; intros G fs s fs' Hid Hs Hx H; cbn [fold_left map run_rows] in *.
+  - injection H as <-. exists G, s. split; [reflexivity|split; [exact Hs|exact Hx]].
   - inversion Hid as [|? ? Hr Hrest]; subst.
     destruct (fstep str_eqb no_args fs r) as [fs1|] eqn:E1; [|rewrite fold_none in H; discriminate].
-    destruct (fstep_sim G fs s r fs1 Hr Hs E1) as (G1 & s1 & A1 & Hs1).
+    destruct (fstep_sim G fs s r fs1 Hr Hs Hx E1) as (G1 & s1 & A1 & Hs1 & Hx1).
     assert (Et : match r_type (to_rsrow r) with TEndBlock => False | TBeginBlock => False | _ => True end).
     { cbn [to_rsrow r_type]. destruct (fr_kind r); exact I. }
-    destruct (r_type (to_rsrow r)) eqn:Ety; try contradiction; rewrite A1; apply (IH G1 fs1 s1 fs' Hrest Hs1 H).
+    destruct (r_type (to_rsrow r)) eqn:Ety; try contradiction; rewrite A1; apply (IH G1 fs1 s1 fs' Hrest Hs1 Hx1 H).
+Qed.
+
+(* the reference flow of such a state: the nodes in the order in which they were made *)
+Lemma flat_nodes_from (pre l : list rnode) :
+  flat_map (fun k => match nth_error (pre ++ l) k with Some n => [to_node k n] | None => [] end) (seq (length pre) (length l))
+  = map (fun kn => to_node (fst kn) (snd kn)) (number_from (length pre) l).
+Proof.
+  revert pre. induction l as [|a l IH]; intros pre; [reflexivity|]. cbn [length seq flat_map number_from map fst snd].
+  rewrite nth_error_app2, Nat.sub_diag by lia. cbn [nth_error app]. f_equal.
+  specialize (IH (pre ++ [a])). rewrite app_length, Nat.add_1_r, <- app_assoc in IH. exact IH.
+Qed.
+
+Lemma gnodes_rows (G : list (nat * eclass)) f : forall l, Forall (fun g => option_map fst (nth_error G g) = Some g) l ->
+  flat_map (gnodes (S f) (map (fun kc : nat * eclass => GRow (fst kc) (snd kc)) G)) l = l.
+Proof.
+  induction 1 as [|g l Hg _ IH]; [reflexivity|]. cbn [flat_map]. rewrite IH. cbn [gnodes]. rewrite nth_error_map.
+  destruct (nth_error G g) as [[k c]|]; [|discriminate]. cbn in Hg. injection Hg as ->. reflexivity.
+Qed.
+
+Lemma to_flow_flat G fs s : FSim G fs s -> FIdx G fs s -> to_flow s = flat_flow (fs_nodes fs).
+Proof.
+  intros Hs [Ix1 Ix2]. unfold to_flow, flat_flow, node_order. f_equal.
+  assert (Hlen : length G = length (fs_nodes fs)) by (rewrite <- (map_length fst G), Ix1, seq_length; reflexivity).
+  rewrite Ix2, (fsim_groups _ _ _ Hs), (fsim_nodes _ _ _ Hs). cbn [concat]. rewrite app_nil_r, gnodes_rows.
+  - rewrite Hlen. exact (flat_nodes_from [] (fs_nodes fs)).
+  - apply Forall_forall. intros g Hg. apply in_seq in Hg. rewrite <- nth_error_map, Ix1, <- Hlen.
+    rewrite (nth_error_nth' (seq 0 (length G)) 0) by (rewrite seq_length; lia). rewrite seq_nth by lia. reflexivity.
 Qed.
 
 Theorem fsem_rowsem rows nodes :
   Forall id_ok rows -> fsem str_eqb no_args rows = Some nodes ->
-  exists s, run_rows no_args (map to_rsrow rows) st0 [] = Some s /\ s_nodes s = nodes.
+  rowsem no_args (map to_rsrow rows) = Some (flat_flow nodes).
 Proof.
   intros Hid H. unfold fsem in H. destruct (frun str_eqb no_args rows fs0) as [fs'|] eqn:E; [|discriminate]. injection H as <-.
   assert (H0 : FSim [] fs0 st0) by (constructor; cbn; try reflexivity; constructor).
-  destruct (frun_sim rows [] fs0 st0 fs' Hid H0 E) as (G' & s' & A & Hs'). exists s'. split; [exact A|apply (fsim_nodes _ _ _ Hs')].
+  assert (X0 : FIdx [] fs0 st0) by (split; reflexivity).
+  destruct (frun_sim rows [] fs0 st0 fs' Hid H0 X0 E) as (G' & s' & A & Hs' & Hx').
+  unfold rowsem. rewrite map_map, (map_ext _ to_rsrow read_flat), A, (to_flow_flat G' fs' s' Hs' Hx'). reflexivity.
 Qed.
 End ToRowSem.
 
@@ -342,7 +400,7 @@ Proof.
       destruct (fapply_all ieqb no_args _ (fr_edges r) _) as [s2|] eqn:E2; cbn [option_map]; [|split; [reflexivity|discriminate]].
       split; [reflexivity|]. intros s' H. injection H as <-. unfold keys_ok. cbn [fs_rowmap map fst]. constructor; [exact Hid|].
       destruct (fapply_all_keys _ _ _ _ E2) as (A1 & _). rewrite A1. exact Hk. }
-    destruct (fr_name r) as [|c1 nm]; [exact Hnew|]. destruct acts as [|a0 acts]; [exact Hnew|].
+    destruct (fr_name r) as [|c1 nm]; [exact Hnew|]. destruct (merge_actions cls acts) as [|a0 macts]; [exact Hnew|].
     destruct (alookup (fs_names s) (c1 :: nm)) as [k|]; [|exact Hnew].
     unfold fstep_merge. cbn [frow_map fr_edges fr_id].
     destruct (fr_edges r) as [|e [|e1 rest]]; cbn [map]; try (split; [reflexivity|discriminate]).
